@@ -795,7 +795,7 @@ Print Assumptions C04_ex_merge_consistent.
     the C04_parse_store theorems) now quantify over commands using them; C04_vp_bridge covers them through embed.
     Below: what a stored value of each looks like (ParseProofs/TypedWide.v).
     =================================================================================================== *)
-From ClapModel Require ParseProofs.TypedWide ParseProofs.TypedWideExamples.
+From ClapModel Require ParseProofs.TypedWide ParseProofs.TypedWideExamples ParseProofs.ErrorSound.
 
 (** LANGUAGE EQUALITY for all ten parser names of the parser model: accepted by vp_parse <-> in the documented
     language, with the typed value stored next to the raw one (both directions: nothing outside the language is
@@ -1132,3 +1132,10 @@ Theorem C04_ex_wide_root :
       (Globals.levels (Matcher.into_inner (Parser.mt st))).
 Proof. exact TypedWideExamples.WideEx.ex_wide_root. Qed.
 Print Assumptions C04_ex_wide_root.
+
+(** C10's language predicate (ErrorSound.in_lang: what C10_kind_sound says a rejected value is NOT in) is the documented
+    language, for all ten parser names *)
+Theorem C04_in_lang_reading :
+  forall (vp : Cmd.vparser) (s : bytes), ErrorSound.in_lang vp s <-> TypedWide.stored_reading vp s.
+Proof. exact TypedWide.in_lang_reading. Qed.
+Print Assumptions C04_in_lang_reading.
